@@ -230,7 +230,12 @@ RAW_STATUS = [
 
 def _raw_stat_case(rng):
     base = _stat_case(rng)
-    data = _mutate(rng, _py_k_stat(base["pid"], bytes.fromhex(base["comm"]), _after(base)))
+    after = _after(base)
+    if rng.random() < 0.15:     # a field the front end needs before any accessor runs (Process() reads the start time)
+        after[rng.choice([19, 19, 1, 4, 11, 36])] = rng.choice([b"x5", b"1.5", b"-", b"1_0", b"+7", b"0x10", b"\xff"])
+        data = _py_k_stat(base["pid"], bytes.fromhex(base["comm"]), after)
+    else:
+        data = _mutate(rng, _py_k_stat(base["pid"], bytes.fromhex(base["comm"]), after))
     devs = [[d[0], glibc_makedev(d[1], d[2])] for d in base["devs"]]
     if devs and rng.random() < 0.3:
         devs[rng.randrange(len(devs))][1] = None          # node vanished between glob and stat
